@@ -140,6 +140,29 @@ impl Property for C17 {
             let joined = perm.iter().map(|&i| lines[i].clone()).collect::<Vec<_>>().join("\n");
             let d = distinct(lines);
             ctx.stats.state(crate::choices::mix(g.t as u64, (d.min(g.t as usize + 2) as i64 - g.t as i64 + 80) as u64));
+            if ctx.ch.chance(1, 4) {
+                // A refused grouping first: the same lines with one damaged chunk (not base64 / a truncated share /
+                // an empty line) after at least one good chunk. Whatever it answers, the honest grouping that
+                // follows on this thread must not be coloured by it.
+                // (the lines of ANOTHER bucket when there is one: the previous bucket this aggregator handled)
+                let others: Vec<&Vec<String>> = inbox.iter().filter(|(k, _)| *k != gi).map(|(_, v)| v).collect();
+                let src: &Vec<String> = if !others.is_empty() && ctx.ch.chance(2, 3) { others[ctx.ch.index(others.len())] } else { lines };
+                let mut damaged: Vec<String> = src.clone();
+                let bad = match ctx.ch.draw(3) {
+                    0 => "!!not-base64!!".to_string(),
+                    1 => {
+                        let raw = BASE64_STANDARD.decode(&src[0]).unwrap_or_default();
+                        BASE64_STANDARD.encode(&raw[..raw.len().saturating_sub(1 + ctx.ch.index(70))])
+                    }
+                    _ => String::new(),
+                };
+                let at = 1 + ctx.ch.index(damaged.len());
+                damaged.insert(at, bad);
+                let dj = damaged.join("\n");
+                if let Ok(None) = guarded(|| star_wasm::group_shares(&dj, &g.epoch)) {
+                    ctx.stats.fault("refused_grouping_before_valid_one");
+                }
+            }
             let res = guarded(|| star_wasm::group_shares(&joined, &g.epoch)).map_err(|(loc, msg)| Violation::new("c17.panic", "group_shares", format!("group_shares panicked on honest lines at {}: {}", loc, msg)))?;
             let want = BASE64_STANDARD.encode(g.key);
             if d >= g.t as usize {
